@@ -140,6 +140,13 @@ namespace occa {
             return false;
           }
 
+          // @outer and @inner loops are mapped to the 3 dimensions of the launch grid
+          // (the launchers index int[3] arrays with the loop index)
+          if ((outerLoopCount > 3) || (innerLoopCount > 3)) {
+            path.last()->printError("Cannot have more than 3 nested [@outer] or 3 nested [@inner] loops");
+            return false;
+          }
+
           if (outerMostOuterLoop != currentOuterMostOuterLoop) {
             // We ran into a different outer-most @outer loop
             // Reset the expected loop counts
